@@ -135,6 +135,11 @@ func (a *Aggregator[VR, GE, S, M]) Aggregate(
 				base.IdentifiableAbortPartyIDTag, sender,
 			)
 		}
+		if utils.IsNil(psig.Sig.E) || utils.IsNil(psig.Sig.R) || utils.IsNil(psig.Sig.S) {
+			return nil, ErrNilArgument.WithMessage("partial signature from sender %d is incomplete", sender).WithTag(
+				base.IdentifiableAbortPartyIDTag, sender,
+			)
+		}
 	}
 
 	if a.IsCosigning() {
